@@ -514,7 +514,7 @@ func TestVerifC07Concurrent(t *testing.T) {
 func TestVerifC07NonReplica(t *testing.T) {
 	rep := kit.NewReport("C07", "nonreplica")
 	defer rep.Write()
-	rep.SetRule("2 directed cases in a child process: ExpandISR(add zz) and ShrinkISR(remove zz) naming the current (leader, epoch) on a partition whose replicas are r1..r3; classified as refused / accepted (then ISR ⊆ replicas is checked) / controller crashed; non-trivial = the child reached the call")
+	rep.SetRule("2 directed cases in a child process: ExpandISR(add zz) and ShrinkISR(remove zz) naming the current (leader, epoch) on a partition whose replicas are r1..r3; classified as refused / accepted (then ISR ⊆ replicas is checked) / committed-and-crashed (a violation: the change must be refused, not committed and then found impossible to apply on every server and every replay); non-trivial = the child reached the call")
 	c07Assumptions(rep)
 	self := os.Getenv("VERIF_SELF")
 	if self == "" {
@@ -555,6 +555,10 @@ func TestVerifC07NonReplica(t *testing.T) {
 			rep.Nontrivial(mode + "/controller-crashed")
 			rep.Count("non_replica_"+mode+"_controller_crashed", 1)
 			rep.SetInfo("non_replica_"+mode, "controller process crashed: "+line("panic:"))
+			// The in-sync set stays a subset of the replicas only because every
+			// server panics while APPLYING the committed change — and again on
+			// every replay of the Raft log.  The property asks for a refusal.
+			rep.Violation("C07:I2:non-replica-isr-change-committed:"+mode, "an in-sync-set change naming a server that is not a replica (with the current leader and epoch) was COMMITTED instead of refused; the FSM cannot apply it and the controller process panics ("+line("panic:")+"), as every server does whenever it replays the log", map[string]interface{}{"mode": mode, "child_output_tail": text[max(0, len(text)-3000):]})
 		default:
 			rep.Inconc("C07 nonreplica/" + mode + ": child ended without a result")
 		}
